@@ -65,12 +65,17 @@ def clear_cache():
 
 def _find(body, parts):
     name = parts[0]
+    found = None
     for n in body:
         if isinstance(n, (ast.FunctionDef, ast.AsyncFunctionDef, ast.ClassDef)) and n.name == name:
             if len(parts) == 1:
-                return n
-            return _find(n.body, parts[1:])
-    return None
+                # python keeps the LAST definition; @overload stubs are typing-only
+                if not isinstance(n, ast.ClassDef) and any(ast.unparse(d).split(".")[-1] == "overload" for d in n.decorator_list):
+                    continue
+                found = n
+            else:
+                return _find(n.body, parts[1:])
+    return found
 
 
 def _is_logger_call(stmt: ast.stmt) -> bool:
